@@ -15,7 +15,7 @@ From RU Require Import Base.Prelude Base.Utf8 Base.Utf8Facts Model.AsciiSet Gen.
   Proofs.C01_EqClasses Proofs.C01_EqAuthSpec Proofs.C01_EqAuthModel Proofs.C01_EqAuth Proofs.C01_EqAuthHost
   Proofs.C01_EqClasses2 Proofs.C01_EqRel Proofs.C01_EqRelPath Proofs.C01_EqRelArms Proofs.C01_EqRelBase
   Proofs.C01_EqSpSpec Proofs.C01_EqSpPath Proofs.C01_EqSpModel Proofs.C01_EqSp Proofs.C01_EqSpHost
-  Proofs.C01_EqAbs Proofs.C01_Override.
+  Proofs.C01_EqAbs Proofs.C01_EqSpBase Proofs.C01_Override.
 
 (* ================= the base relation and the outcome relation ================= *)
 (* a model record and a record of the Standard that may serve as a base: `related` (wf_b, same ten API
@@ -96,11 +96,17 @@ Definition in_class_abs_base (sb : spec_url) (input : list N) : bool :=
   | None => false
   end.
 
+(* scheme-less references against a special non-file base with a host (Proofs/C01_EqSpBase.v) *)
+Definition in_class_relative_s (sb : spec_url) (input : list N) : bool :=
+  in_class_rel_abs_s sb input || in_class_rel_path_s sb input
+  || (scheme_canon (su_scheme sb) && in_class_rel_authority_s sb input).
+
 Definition in_proved_class3 (sbase : option spec_url) (input : list N) : bool :=
   match sbase with
   | None => in_proved_nobase3 input
   | Some sb => in_class_fragment_only input || in_class_query_only sb input || in_class_opaque_base_fail sb input
                || in_class_empty_ref sb input || in_class_relative sb input || in_class_abs_base sb input
+               || in_class_relative_s sb input
   end.
 
 Lemma in_proved_class3_of2 sbase input : in_proved_class2 sbase input = true -> in_proved_class3 sbase input = true.
@@ -122,6 +128,7 @@ Definition class_host_query (sbase : option spec_url) (input : list N) : option 
   | None => nobase_host_query input
   | Some sb => if in_class_rel_authority sb input then Some (true, rel_host_text input)
                else if in_class_abs_base sb input then nobase_host_query input
+               else if in_class_rel_authority_s sb input then Some (false, rel_host_text_s input)
                else None
   end.
 
@@ -339,17 +346,30 @@ Proof.
            apply agree_good_intro.
            ++ exact (class_rel_authority dbg hp hpo hd None shp shs input b sb Hu R Hcan Hrel HH).
            ++ intros su HS. exact (rel_authority_result_ok shp input sb su Hcan Hrel HS).
-      * (* the reference has a scheme of its own and the base is ignored *)
-        cbn [orb] in Hc. unfold host_hyp3, class_host_query in HH.
+      * cbn [orb] in Hc.
         assert (in_class_rel_authority sb input = false) as Era.
         { unfold in_class_relative in Hrel. apply orb_false_iff in Hrel. tauto. }
-        rewrite Era, Hc in HH.
-        unfold in_class_abs_base in Hc.
-        destruct (spec_scheme (spec_clean input)) as [[sch R0]|] eqn:Es; [|discriminate Hc].
-        apply andb_true_iff in Hc. destruct Hc as [Hbi Hnb].
-        rewrite (model_base_ignored dbg hp hpo hd None b sb shs input sch R0 R Es Hbi).
-        apply (agree_good_outcome_eq _ _ _ (spec_base_ignored shp (Some sb) input sch R0 Es Hbi)).
-        exact (partial_nobase_good3 None input Hu (or_introl eq_refl) Hnb HH).
+        destruct (in_class_abs_base sb input) eqn:Habs.
+        -- (* the reference has a scheme of its own and the base is ignored *)
+           unfold host_hyp3, class_host_query in HH. rewrite Era, Habs in HH.
+           unfold in_class_abs_base in Habs.
+           destruct (spec_scheme (spec_clean input)) as [[sch R0]|] eqn:Es; [|discriminate Habs].
+           apply andb_true_iff in Habs. destruct Habs as [Hbi Hnb].
+           rewrite (model_base_ignored dbg hp hpo hd None b sb shs input sch R0 R Es Hbi).
+           apply (agree_good_outcome_eq _ _ _ (spec_base_ignored shp (Some sb) input sch R0 Es Hbi)).
+           exact (partial_nobase_good3 None input Hu (or_introl eq_refl) Hnb HH).
+        -- (* special base *)
+           cbn [orb] in Hc. unfold in_class_relative_s in Hc. apply orb_true_iff in Hc.
+           destruct Hc as [Hc|Hc]; [apply orb_true_iff in Hc; destruct Hc as [Hc|Hc]|].
+           ++ destruct (class_rel_abs_s dbg hp hpo hd shp shs input b sb Hu R Hcan Hc) as (su & -> & Hbo & A).
+              split; [exact Hbo | exact A].
+           ++ destruct (class_rel_path_s dbg hp hpo hd shp shs input b sb Hu R Hok Hc) as (su & -> & Hbo & A).
+              split; [exact Hbo | exact A].
+           ++ apply andb_true_iff in Hc. destruct Hc as [_ Hc].
+              unfold host_hyp3, class_host_query in HH. rewrite Era, Habs, Hc in HH.
+              apply agree_good_intro.
+              ** exact (class_rel_authority_s dbg hp hpo hd shp shs input b sb Hu R Hcan Hc HH).
+              ** intros su HS. exact (rel_authority_s_result_ok shp input sb su Hcan Hc HS).
   - (* no base *)
     exact (partial_nobase_good3 None input Hu (or_introl eq_refl) Hc HH).
 Qed.
@@ -461,7 +481,12 @@ Proof.
     unfold rel_host_text. destruct (spec_clean input) as [|c1 [|c2 T]]; try constructor.
     apply (usv_of_in _ T); [|apply usv_cons in Hc; destruct Hc as [_ Hc]; apply usv_cons in Hc; tauto].
     intros x Hx. unfold auth_host_text in Hx. exact (after_at_in T x (hs_host_in _ _ x Hx)).
-  - destruct (in_class_abs_base sb input); [|discriminate H]. exact (nobase_host_query_usv input o s Hu H).
+  - destruct (in_class_abs_base sb input); [exact (nobase_host_query_usv input o s Hu H)|].
+    destruct (in_class_rel_authority_s sb input); [|discriminate H].
+    pose proof (usv_spec_clean input Hu) as Hc. inversion H; subst o s.
+    unfold rel_host_text_s. destruct (spec_clean input) as [|c1 [|c2 T]]; try constructor.
+    apply (usv_of_in _ T); [|apply usv_cons in Hc; destruct Hc as [_ Hc]; apply usv_cons in Hc; tauto].
+    intros x Hx. unfold sp_host_text in Hx. exact (drop_sl_in T x (after_at_s_in _ x (hss_host_in _ _ x Hx))).
 Qed.
 
 (* ================= the host hypothesis for the host model and the Standard's host parser ================= *)
